@@ -154,7 +154,8 @@ LEVEL = {}  # default: exploration
 
 RULES = {
     "C12": "(Hostile) rapid-generated node configurations (three routers x sequence-number validator x subscription filters x four "
-           "signature policies x score / gater / peer exchange / test + partial-message extensions x max message size) and 1-10 hostile "
+           "signature policies x score / gater / peer exchange / test + partial-message extensions x max message size x (in a third) a "
+           "rejecting topic validator next to a slow one-slot default validator) and 1-10 hostile "
            "RPCs each (optionally repeated up to 12 times): subscriptions, messages and every control kind with fields from pools of nasty "
            "values (absent / empty / known / unknown / 64 KiB / binary topics and ids, sequence numbers of 0-12 bytes, junk or truncated "
            "authors, absent / empty / junk / honest signatures over weird fields, thousands of ids, PRUNE with junk / empty / mismatched "
